@@ -1689,3 +1689,22 @@ package compose
 //@   ghost wasNil bool = false
 //@   after call field.IsNil: ghost wasNil = result
 //@   at call field.Set: assert[existing_values_are_kept] @C15 wasNil
+
+//@ func runWithCallbacks$1
+//@   props C10
+//@   requires r != nil && onStart != nil && onEnd != nil && onError != nil
+//@   ghost starts int = 0
+//@   ghost runs int = 0
+//@   ghost ends int = 0
+//@   ghost errs int = 0
+//@   ghost rerr error = nil
+//@   at call onStart: assert[start_comes_first] @C10 starts == 0 && runs == 0
+//@   at call onStart: ghost starts++
+//@   at call r: assert[node_runs_after_start] @C10 starts == 1 && runs == 0
+//@   at call r: ghost runs++
+//@   after call r: ghost rerr = result1
+//@   at call onEnd: assert[end_only_after_success] @C10 runs == 1 && rerr == nil && ends == 0 && errs == 0
+//@   at call onEnd: ghost ends++
+//@   at call onError: assert[error_only_after_failure] @C10 runs == 1 && rerr != nil && ends == 0 && errs == 0 && arg1 == rerr
+//@   at call onError: ghost errs++
+//@   ensures[callbacks_paired] @C10 starts == 1 && runs == 1 && ends + errs == 1 && (rerr == nil ==> ends == 1 && err == nil) && (rerr != nil ==> errs == 1)
